@@ -250,6 +250,24 @@ CHECKS = {
              'rim is accepted either way; ties within 2.5e-3 px are undecided; PGRatPolyProjection / DEM not covered. ' + TB,
         technique='Lean 4 proof (Mathlib floor/round, linear_combination, list induction on C03 tilings) + Float-instantiated model '
                   'correspondence + end-to-end product oracle (SIDD metadata -> ground -> source pixel)'),
+    'C15': dict(
+        text='Lean 4 theorems (all axis lengths, all windows, any nesting depth, all block sizes) about the integer core of chipping: a '
+             'row/column window is a step-1 normal slice of C01; a chip of a chip is the composed window (valid, associative, same '
+             'parent indices - derived from compose_spec of C01); the First/Num arithmetic and bounds check of create_subset_structure '
+             'compose (one call with the composed bounds = any chain of calls, None bounds included); chip pixel (r, c) and parent '
+             'pixel (r + r0, c + c0) have identical offsets from the scene centre pixel, hence identical projection arguments (over '
+             'any ring); the row-block loop of the converter covers every chip row exactly once and writes the parent rows of the '
+             'window for every max_block_size. Tied to the code by a line-protocol correspondence (subset structures, projection '
+             'shifts, SubsetSegment chains, rows-per-block and the observed write_chip blocks) and searched by a direct oracle on real '
+             'SICD files of every pixel type: subset reader, subset metadata, conversion_utility / create_chip output, projection of '
+             'chip vs parent pixels in both directions, chips of chips.',
+        design='DESIGN.md 6/C15',
+        note='proof, partial: window / metadata / shift / tiling algebra proved (Int, Nat, List; unbounded). By correspondence only: that '
+             'the implementation computes these quantities (no translator). By numerical comparison on the implementation only: '
+             'projection (1e-6 m, 1e-6 pixel; ground_to_image both converged and with default tolerance), corner re-derivation '
+             '(1e-9 deg). Pixel routing / decoding / file layout are C01 / C08 / C02 / C03. ' + TB,
+        technique='Lean 4 proof (integer arithmetic, list induction, reuse of C01/C02/C03 theorems) + correspondence through a run-time '
+                  'wrapper of SICDWriter.write_chip + file-level differential oracle (numpy slicing, projection both ways)'),
 }
 
 
